@@ -225,11 +225,15 @@ def _is_later_twin(root, node, text, hit, srcdir):
 
 def locate(rootdir, text):
     hits = []
+    seen = set()
     for d, _, files in os.walk(rootdir):
         for fn in files:
-            if not fn.endswith('.asm'):
+            if not fn.lower().endswith('.asm'):
                 continue
             p = os.path.join(d, fn)
+            if os.path.realpath(p) in seen:     # (an include file may be a symbolic link into the store directory: one file, two names)
+                continue
+            seen.add(os.path.realpath(p))
             with open(p, encoding='utf-8') as f:
                 for i, line in enumerate(f.read().splitlines(), start=1):
                     if line == text:
